@@ -449,6 +449,11 @@ class _Run:
                 return {ast.Sub: a - b, ast.Add: a + b, ast.Mult: a * b, ast.FloorDiv: a // b if b else 0, ast.Mod: a % b if b else 0}[type(op)]
             except KeyError:
                 raise Unknown("int op")
+        if isinstance(op, ast.MatMult) and (isinstance(a, Q) != isinstance(b, Q)) and isinstance(a, (Q, T)) and isinstance(b, (Q, T)):
+            # `q @ plain` is dispatched to the mm / bmm handlers, which fall back to the dequantized operands unless both sides are
+            # quantized (those handlers are typed on their own by mm_handlers)
+            a = T(a.labels, "float", tag=a.name + ".deq") if isinstance(a, Q) else a
+            b = T(b.labels, "float", tag=b.name + ".deq") if isinstance(b, Q) else b
         if isinstance(a, (T, Q)) or isinstance(b, (T, Q)):
             for z in (a, b):
                 if isinstance(z, Q):
@@ -567,7 +572,8 @@ class _Run:
             raise Unknown(f"call {n}")
         # torch.* and method calls
         ft = U(f)
-        if ft.startswith("torch."):
+        dotted = all(isinstance(n_, (ast.Name, ast.Attribute, ast.Load)) for n_ in ast.walk(f))
+        if ft.startswith("torch.") and dotted:
             name = ft.split(".")[-1]
             if ft.startswith("torch.ops.quanto."):
                 if name in env:
@@ -584,10 +590,19 @@ class _Run:
     def torch_fn(self, name, args, kw, node):
         if name in ("matmul", "_int_mm", "mm", "bmm"):
             a, b = args[0], args[1]
+            if name == "matmul" and (isinstance(a, Q) != isinstance(b, Q)) and isinstance(a, (Q, T)) and isinstance(b, (Q, T)):
+                # torch.matmul of a quantized tensor with a plain one is dispatched to the mm / bmm handlers, which fall back to the
+                # dequantized operands unless both sides are quantized (typed on their own by mm_handlers)
+                a = T(a.labels, "float", tag=a.name + ".deq") if isinstance(a, Q) else a
+                b = T(b.labels, "float", tag=b.name + ".deq") if isinstance(b, Q) else b
             if not (isinstance(a, T) and isinstance(b, T)):
                 raise Unknown(f"torch.{name} on non-tensor types")
             if name == "_int_mm" and (len(a.labels) != 2 or len(b.labels) != 2):
                 raise TypeErr(f"torch._int_mm needs 2-D operands, got {a} and {b}")
+            if name == "_int_mm":
+                for z_, nm_ in ((a, "first"), (b, "second")):
+                    if "stride0" in getattr(z_, "strides", ()) or getattr(z_, "stride0", False):
+                        raise TypeErr(f"torch._int_mm is given a {nm_} operand that may have a zero stride (an expanded tensor) without contiguous(): the kernel reads it as a dense matrix and returns garbage (platform table)")
             if name == "bmm" and (len(a.labels) != 3 or len(b.labels) != 3):
                 raise TypeErr(f"bmm needs 3-D operands, got {a} and {b}")
             r = matmul(a, b, "torch." + name)
@@ -600,6 +615,8 @@ class _Run:
                 raise TypeErr(f"_weight_int8pack_mm needs 2-D activations, got {a}")
             if a.labels[-1] != w.labels[-1]:
                 raise TypeErr(f"_weight_int8pack_mm contracts {a} with {w}")
+            if "lastdim" in getattr(a, "strides", ()):
+                raise TypeErr("_weight_int8pack_mm is given activations that may not be contiguous on their last dimension (a transposed 2-D input) without contiguous(): the kernel refuses them with a RuntimeError (platform table)")
             if s.labels != (w.labels[0],):
                 raise TypeErr(f"_weight_int8pack_mm scales {s} do not run along the weight rows {w.labels[0]}")
             if getattr(s, "stride0", False):
@@ -613,6 +630,15 @@ class _Run:
         raise Unknown("torch." + name)
 
     def method(self, recv, name, args, kw, node):
+        r = self._method(recv, name, args, kw, node)
+        # stride hazards (a tensor that may have a zero stride / may not be contiguous on its last dimension) survive views only
+        if isinstance(recv, T) and isinstance(r, T) and r is not recv and getattr(recv, "strides", None) and name in ("t", "view", "reshape", "detach", "unsqueeze", "flatten", "expand", "expand_as", "broadcast_to", "squeeze", "transpose", "permute"):
+            r.strides = set(recv.strides) | set(getattr(r, "strides", ()))
+        return r
+
+    def _method(self, recv, name, args, kw, node):
+        if isinstance(recv, Obj) and callable(recv.attrs.get(name)):
+            return recv.attrs[name](*args, **kw)  # a modelled callable attribute (autograd Function .apply)
         if isinstance(recv, Q):
             if name == "dequantize":
                 return T(recv.labels, "float", tag=recv.name + ".deq")  # dequantized: no raw payload, no pending scale
@@ -649,6 +675,8 @@ class _Run:
                         raise TypeErr(f"expand: {recv} does not broadcast to {shape}")
                 r_ = recv.like(shape)
                 r_.stride0 = any(o == () and n_ != () for o, n_ in zip(old_l, shape))
+                if r_.stride0:
+                    r_.strides = {"stride0"}
                 return r_
             if name in ("to", "contiguous", "float", "half", "bfloat16", "clone", "detach", "type"):
                 # single rounding: an accumulator of raw codes is narrowed to the output dtype only once every payload is scaled
